@@ -215,3 +215,41 @@ Proof.
   exists (mkCfg 0 0 [] false), f7_rows, 1, 2.
   vm_compute. repeat split; discriminate.
 Qed.
+
+(* (seeded C07-4) doTake: a follower of a shared flight whose result is the LEADER's context
+   error (the leader's context was cancelled / passed its deadline while its query was in
+   progress; for the model: the database's error) re-runs the whole load itself, outside the
+   single flight.  Nothing was cached by the failed load, so all n followers find the key
+   uncached and query the database - at the same time: n + 1 queries for n + 1 overlapping
+   readers of one key instead of at most one (Props.load_suppression), n of them concurrently. *)
+From Coq Require Import Lia.
+From GZ Require Import C06.ProofsB.
+
+Definition shared_take_rerun (c : config) (s : state) (p t : Z) (n : nat) : list obs :=
+  let lead := snd (step c s (OTake p t)) in
+  match oret lead with
+  | RDbErr => lead :: repeat (snd (step c (fst (step c s (OTake p t))) (OTake p t))) n
+  | r => lead :: repeat (mkObs r 0 0) n
+  end.
+
+Lemma total_queries_repeat o n : total_queries (repeat o n) = Z.of_nat n * (oqi o + oqp o).
+Proof.
+  induction n as [|n IH]; [reflexivity|].
+  rewrite Nat2Z.inj_succ. cbn [repeat total_queries]. rewrite IH. lia.
+Qed.
+
+Theorem follower_rerun_refuted :
+  exists c s p t, forall n,
+    total_queries (shared_take_rerun c s p t n) = 1 + Z.of_nat n /\
+    (* whereas sharing the failed flight's result costs one query, whatever n *)
+    total_queries (snd (shared_take c s p t n)) = 1.
+Proof.
+  exists f7_cfg, (mkState f7_rows true [] [] [] [] 0), 1, 100.
+  intro n. split.
+  - change (shared_take_rerun f7_cfg (mkState f7_rows true [] [] [] [] 0) 1 100 n)
+      with (mkObs RDbErr 0 1 :: repeat (mkObs RDbErr 0 1) n).
+    cbn [total_queries]. rewrite total_queries_repeat. cbn [oqi oqp]. lia.
+  - change (snd (shared_take f7_cfg (mkState f7_rows true [] [] [] [] 0) 1 100 n))
+      with (mkObs RDbErr 0 1 :: repeat (mkObs RDbErr 0 0) n).
+    cbn [total_queries]. rewrite total_queries_repeat. cbn [oqi oqp]. lia.
+Qed.
